@@ -36,6 +36,11 @@ impl OverlapChecker
         size: usize)
         -> Result<(), ()>
     {
+        if size == 0
+        {
+            return Ok(());
+        }
+
         let (index, maybe_overlapping_entry) =
             self.check_overlap(position, size);
         
